@@ -170,6 +170,8 @@ class Model:
             from .normalise import inline_fresh_helpers, specialise_fresh_factories, nest_lifted_closures, split_conditional_expressions
             from .normalise import strip_diagnostics, strip_annotations
             na = strip_annotations(self.modules)
+            from .normalise import canonical_iter_sentinel
+            self.inlined += canonical_iter_sentinel(self.modules)
             from .normalise import propagate_fresh_constants, specialise_fresh_optional_params
             self.inlined += propagate_fresh_constants(self.modules)
             self.inlined += specialise_fresh_optional_params(self.modules)
@@ -182,6 +184,11 @@ class Model:
             from .normalise import propagate_attribute_aliases, unroll_literal_loops, strip_fresh_write_only_state
             self.inlined += strip_fresh_write_only_state(self.modules)
             self.inlined += unroll_literal_loops(self.modules)
+            from .normalise import canonical_getattr, canonical_loop_guards
+            self.inlined += canonical_getattr(self.modules)
+            self.inlined += canonical_loop_guards(self.modules)
+            from .normalise import simplify_bool_comparisons
+            simplify_bool_comparisons(self.modules)
             self.inlined += propagate_attribute_aliases(self.modules)
             if nf:
                 self.inlined.append(('<package>', [], '%d f-strings / %%-formats written as str.format' % nf))
